@@ -1,16 +1,17 @@
 #!/bin/bash
-# intake.sh <PROP> [valgrind]: confirm both round-3 patches of the sub-agent that worked in /tmp/r3_<PROP>, then run the registered
-# quick check of <PROP> against each confirmed patch (sens.py); results in /tmp/sens_out_agent-<id>.txt
+# intake.sh <PROP> <ROUND> [valgrind]: confirm both patches of the round-<ROUND> sub-agent that worked in /tmp/r<ROUND>_<PROP>, then run
+# the registered quick check of <PROP> against each confirmed patch (sens.py); results in /tmp/sens_out_agent-<id>.txt
+# (ids: round 3 -> <PROP>-3/-4, round 4 -> <PROP>-5/-6, ...)
 cd /verif
-p=$1; vg=$2
+p=$1; rd=$2; vg=$3
 exec 8>/tmp/intake.lock; flock 8   # one sensitivity run at a time
 for N in 1 2; do
-  id=$p-$((N+2))
-  python3 seeded/verify_agent.py /tmp/r3_$p/_mut $N $p $id $vg 2>&1 | tail -2
+  id=$p-$((N + 2 * (rd - 2)))
+  python3 seeded/verify_agent.py /tmp/r${rd}_$p/_mut $N $p $id $vg 2>&1 | tail -2
   if [ -f seeded/agent-$id/patch.diff ]; then
     python3 sens.py agent-$id seeded/agent-$id/patch.diff $p > /tmp/sens_out_agent-$id.txt 2>&1
     head -5 /tmp/sens_out_agent-$id.txt | cut -c1-250
   fi
 done
-[ -f /tmp/r3_$p/_mut/SIDE_FINDINGS.md ] && mkdir -p notes/side && cp /tmp/r3_$p/_mut/SIDE_FINDINGS.md notes/side/r3_$p.md
+[ -f /tmp/r${rd}_$p/_mut/SIDE_FINDINGS.md ] && mkdir -p notes/side && cp /tmp/r${rd}_$p/_mut/SIDE_FINDINGS.md notes/side/r${rd}_$p.md
 exit 0
